@@ -204,6 +204,14 @@ theorem addAuth_users (s : ZSt) (sender : Id) (a : Option AddIn) (s' : ZSt) (h :
     | (simp only [Except.ok.injEq] at h; subst h; rfl)
     | (exact absurd h (by simp))
 
+theorem updCfg_users (s : ZSt) (sender : Id) (u : Option (List Upd)) (s' : ZSt) (h : updCfg s sender u = .ok s') :
+    s'.users = s.users := by
+  unfold updCfg at h
+  repeat' split at h
+  all_goals first
+    | (simp only [Except.ok.injEq] at h; subst h; rfl)
+    | (exact absurd h (by simp))
+
 theorem delAuth_users (s : ZSt) (sender : Id) (k : Option Nat) (s' : ZSt) (h : delAuth s sender k = .ok s') :
     s'.users = s.users := by
   unfold delAuth at h
@@ -255,6 +263,18 @@ theorem step_nonce (strict feeOn : Bool) (a : Nat) (s : ZSt) (op : Op) :
     | ok o =>
       simp only [hm, Option.some.injEq, Prod.mk.injEq] at hr
       rw [← hr.1]; exact delAuth_users s c.sender x o hm
+  | updCfg c x =>
+    left
+    refine ⟨rfl, ?_⟩
+    show unGet (updCfgStep feeOn s c x).1.users a = _
+    unfold updCfgStep
+    rw [settleCall_users]
+    intro s' q hr
+    cases hm : updCfg s c.sender x with
+    | error e => simp [hm] at hr
+    | ok o =>
+      simp only [hm, Option.some.injEq, Prod.mk.injEq] at hr
+      rw [← hr.1]; exact updCfg_users s c.sender x o hm
   | burn c inp =>
     show (handedOut strict feeOn a s (.burn c inp) = [] ∧ unGet (burnStep feeOn s c inp).1.users a = _) ∨
          (handedOut strict feeOn a s (.burn c inp) = _ ∧ unGet (burnStep feeOn s c inp).1.users a = _)
@@ -343,8 +363,12 @@ theorem burn_nonce_sequence_nowrap (strict feeOn : Bool) (a : Nat) (ops : List O
 /-! ## non-vacuity -/
 
 def exCfg : Cfg := { minBurn := 100, minMint := 1, maxFee := 10, percent := F64.one, owner := 2, minStakePerDelegate := 1, maxDelegates := 5 }
+def exS0 : ZSt := { accts := [(2, ⟨1000, 0⟩)], cfg := { minBurn := 100, minMint := 1, maxFee := 10, percent := F64.one, owner := 2, minStakePerDelegate := 1, maxDelegates := 5 }, users := [], auths := [], count := 0, pools := [], minted := [] }
 def exS : ZSt := { accts := [(2, ⟨1000, 0⟩), (3, ⟨500, 2⟩)], cfg := exCfg, users := [(1, 7)], auths := [], count := 0, pools := [], minted := [] }
 
+-- a rejected configuration update leaves the minimum alone: the burn below it still fails afterwards
+example : (burnStep true (updCfgStep true exS0 ⟨2, 0, 1, 1⟩ (some [.minBurn 5, .maxFee 0])).1 ⟨2, 50, 5, 2⟩ (.addr 1)).2 = .failed := by decide +kernel
+example : (burnStep true (updCfgStep true exS0 ⟨2, 0, 1, 1⟩ (some [.minBurn 5])).1 ⟨2, 50, 5, 2⟩ (.addr 1)).2 = .success := by decide +kernel
 -- a successful burn exists (hypothesis of `burn_effect`), and it moves what the theorem says
 example : (burnStep true exS ⟨2, 100, 5, 1⟩ (.addr 1)).2 = .success := by decide
 example : (burnStep true exS ⟨2, 100, 5, 1⟩ (.addr 1)).1.users = [(1, 8)] := by decide
